@@ -195,6 +195,33 @@ Theorem c13_buf_write_appends_unread :
 Proof. exact buf_write_appends_unread. Qed.
 Print Assumptions c13_buf_write_appends_unread.
 
+(* Buffer.ReadOnce (one Read of an io.Reader into a scratch slice, then Write of what was read) is the Write
+   step on the delivered bytes, and leaves the buffer untouched when the reader fails: the op-sequence
+   theorems (c13_buf_no_panic, c13_buf_refines_fifo, c13_fifo_conservation, ...) cover sequences in which
+   any Write is performed through ReadOnce.  The harness runs a share of all Buffer writes that way. *)
+Theorem c13_buf_read_once_is_write :
+  forall s d,
+    buf_read_once s (Some d) =
+    match buf_step s (BWrite d) with
+    | Ok (s', BRWrote n) => Ok (s', Some n)
+    | Ok (s', _) => Ok (s', None)
+    | Err e => Err e
+    | Panic => Panic
+    end.
+Proof. exact buf_read_once_is_write. Qed.
+Print Assumptions c13_buf_read_once_is_write.
+
+Theorem c13_buf_read_once_spec :
+  forall s rd s' r,
+    buf_inv s -> 2 * buf_cap s + Z.of_nat (length (match rd with Some d => d | None => [] end)) <= buf_maxint ->
+    buf_read_once s rd = Ok (s', r) ->
+    match rd with
+    | None => s' = s /\ r = None
+    | Some d => r = Some (Z.of_nat (length d)) /\ buf_unread s' = buf_unread s ++ d
+    end.
+Proof. exact buf_read_once_spec. Qed.
+Print Assumptions c13_buf_read_once_spec.
+
 (* Read: first n unread bytes, exactly those consumed, nothing dropped; io.EOF iff the
    buffer has no unread data and len(p) > 0 *)
 Theorem c13_buf_read_takes_prefix_of_unread :
